@@ -190,3 +190,27 @@ func VX_C18_regex() {
 	vx.Check(m.Matches(cell) == ref.MatchString(cell), "regex pattern anchored as documented")
 	vx.Reach("end")
 }
+
+// VX_C18_regex_seq: the same regex pattern used for like and ilike one after the
+// other (both orders): each matcher must be built for its own case rule.
+func VX_C18_regex_seq() {
+	pattern := vx.ParamStr("pattern")
+	first := vx.ParamBool("first")
+	cell := vx.Str(2)
+	for k := 0; k < len(cell); k++ {
+		vx.Assume(cell[k] < 0x80)
+	}
+	for _, cs := range []bool{first, !first, first} {
+		m, err := NewMatcher(pattern, cs)
+		vx.Check(err == nil, "valid regex pattern: no error")
+		if err != nil {
+			return
+		}
+		expect := "^" + pattern + "$"
+		if !cs {
+			expect = "(?i)" + expect
+		}
+		vx.Check(m.Matches(cell) == regexp.MustCompile(expect).MatchString(cell), "each matcher follows its own case rule")
+	}
+	vx.Reach("end")
+}
